@@ -298,6 +298,7 @@ class Fate:
         self.err_arm_blocks = []   # entry blocks of Err arms of matches on the value
         self.ok_arm_blocks = []
         self.closures = []      # closures applied to the error (map_err etc.)
+        self.ref_tests = 0      # tests that only look at the variant through a reference (is_ok / is_err)
 
     def __repr__(self):
         return 'Fate(%s)' % ','.join(sorted(self.kinds))
@@ -403,6 +404,7 @@ def classify_result(body, call, _depth=0, _local=None):
                     elif c.matches(r'::(is_ok|is_err)$') and any(w3[0] == 'switch' for l3 in forward_locals(body, c.dest[0]) for (_b3, _i3, w3) in body.operand_uses(l3)):
                         # `if r.is_ok() {..} else {..}`: a match on the result without looking at the payloads
                         fate.kinds.add('MATCHED')
+                        fate.ref_tests += 1
                         neg = c.matches(r'::is_err$')
                         for l3 in forward_locals(body, c.dest[0]):
                             for (b3, i3, w3) in body.operand_uses(l3):
